@@ -4,9 +4,16 @@ tools/not_applicable.json. Keeps MANIFEST.json valid at all times."""
 import glob, json, os
 root = os.path.join(os.path.dirname(os.path.abspath(__file__)), "..")
 checks = []
+hold_path = os.path.join(root, "tools", "hold.json")
+hold = json.load(open(hold_path)) if os.path.exists(hold_path) else {}
 for p in sorted(glob.glob(os.path.join(root, "checks", "C*.json"))):
     c = json.load(open(p))
     cid = c["id"]
+    if cid in hold:
+        continue
+    if c.get("technique", "wip") == "wip" or not c.get("required_theorems"):
+        hold[cid] = "work in progress (no property theorems registered yet)"
+        continue
     checks.append({
         "property_id": cid,
         "quick_cmd": "./check %s --tier quick" % cid,
@@ -25,6 +32,9 @@ props = [json.loads(l)["id"] for l in open(os.path.join(root, "properties.jsonl"
 not_app = []
 for pid in props:
     if pid not in claimed:
+        if pid in hold:
+            not_app.append({"property_id": pid, "reason": "check built but held back from the manifest: " + hold[pid]})
+            continue
         not_app.append({"property_id": pid, "reason": na.get(pid, "not yet covered by a check (work in progress; see DESIGN.md section 6 for the planned model)")})
 hooks = json.load(open(os.path.join(root, "tools", "hooks.json")))
 m = {
